@@ -8,6 +8,8 @@ import (
 	"strconv"
 	"strings"
 	"unicode"
+
+	"github.com/WICG/webpackage/go/internal/verifhook"
 )
 
 func (ll ListOfLists) String() (string, error) {
@@ -93,6 +95,7 @@ func (pi *ParameterisedIdentifier) serialize(out *strings.Builder) error {
 		keys = append(keys, string(k))
 	}
 	sort.Strings(keys)
+	verifhook.Point("structuredheader.serialize.sorted")
 
 	for _, k := range keys {
 		out.WriteByte(';')
@@ -113,6 +116,7 @@ func (pi *ParameterisedIdentifier) serialize(out *strings.Builder) error {
 
 // https://tools.ietf.org/html/draft-ietf-httpbis-header-structure-09#section-4.1.5
 func serializeItem(i Item, out *strings.Builder) error {
+	verifhook.Point("structuredheader.serializeItem")
 	switch v := i.(type) {
 	case int64:
 		// https://tools.ietf.org/html/draft-ietf-httpbis-header-structure-09#section-4.1.6
